@@ -135,6 +135,11 @@ def run_job(target, case, opts=None):
                     ctx.prove(f"on-raise:{nm}", "post", fn(A), info={"path": pid, "exc": val.exc.name}, assume_after=False)
         except PathEnd:
             out["cut_paths"] += 1
+        except SymRaise as e:
+            # an element-wise closure (comprehension over a symbolic sequence) evaluated lazily by a postcondition raised:
+            # some element of the sequence makes the real code raise on this path -- not decided here, the raising path
+            # itself is explored separately (branch on the same condition inside the function)
+            out["undecided"].append(f"postcondition evaluation met a raising element ({e.exc.name if hasattr(e, 'exc') else e}) [path {ctx.path_id()}]")
         except Retype as e:
             # a loop variable needs a real-valued havoc: start the whole job again (the memo in loops.HAVOC_REAL now has it)
             retypes += 1
